@@ -287,6 +287,15 @@ def generate(rng: random.Random, tier: str) -> dict:
             cfg["place"] = rng.choice(["default", "default", "base-exists", "base-nested"])
         cfg["dask"].update(workers=rng.choice([2, 3, 4]), rendezvous=True, trace=rng.choice(["sinks", "sinks", "all"]), stall=0.0)
         cfg["pressure"] = True
+    if tier == "thorough" and not big and rng.random() < 0.012:
+        # the service's real limits: S3Limits left as shipped (5 MiB minimum part size), an image large and
+        # incompressible enough for several parts (about 19 MB of uint16 noise), spill threshold at the minimum
+        ny, nx = rng.choice([3000, 3100]), rng.choice([3100, 3200])
+        wide = [t for t in CODEC_DOMAIN["ok"] if t[0] == "uint16" and t[1] in ("deflate", "zstd", "lzw")]
+        cfg["dtype"], cfg["compression"], cfg["predictor"] = rng.choice(wide)
+        cfg.update(axis="YX", ns=0, level=None, noise=True, nodata=None if cfg["nodata"] == "nan" else cfg["nodata"], blocksize=[256], chunks=[512, 512], irregular_chunks=None, big_endian_input=False,
+                   sink=rng.choice(["s3", "s3-cluster"]), place=None, dst_exists=False, s3_min_write="true", spill_sz=rng.choice([5 << 20, 6 << 20]), wpc=rng.choice([2, 4]), gbox="std", pressure=False)
+        cfg["dask"].update(workers=rng.choice([1, 2]), trace="sinks", rendezvous=False, recompute=0.0, stall=0.0)
     return {"config": cfg, "workload": {"shape": [ny, nx]}}
 
 
@@ -302,7 +311,14 @@ def make_pixels(ny: int, nx: int, ns: int, axis: str, dtype: str, noise: bool = 
         if noise:
             # still a function of (band, row, col), but nothing a predictor or an entropy coder can squeeze: compressed
             # tiles stay large enough for partitions to spill from inside tasks (ramps compress to a few dozen bytes)
-            v = ((v * 2654435761) ^ ((v * 40503) >> 3)) & 0x7FFFFFFF
+            # (a 64-bit finaliser, not a multiplicative hash: v * K is linear in v and the TIFF predictor differences it away)
+            x = v.astype(np.uint64)
+            x ^= x >> np.uint64(33)
+            x *= np.uint64(0xFF51AFD7ED558CCD)
+            x ^= x >> np.uint64(33)
+            x *= np.uint64(0xC4CEB9FE1A85EC53)
+            x ^= x >> np.uint64(33)
+            v = (x & np.uint64(0x7FFFFFFF)).astype(np.int64)
         if dt.kind == "b":
             return ((v * 2654435761) >> 7) % 5 < 2  # a mask: no run-length or period a tile shift would preserve
         if dt.kind == "f":
@@ -448,6 +464,7 @@ def _execute(record: dict, rng: Optional[random.Random]) -> Outcome:
         "trace_all": 0,
         "workers_met_in_sink_code": 0,
         "sink_pressure_runs": 0,
+        "s3_true_5MiB_limit_runs": 0,
         "s3_multiple_parts": 0,
         "multi_worker": 0,
         "padding_adds_whole_tiles": 0,
@@ -470,7 +487,8 @@ def _execute(record: dict, rng: Optional[random.Random]) -> Outcome:
     tmp = Path(tempfile.mkdtemp(prefix=f"odcsim-c05-{os.getpid()}-", dir="/dev/shm"))
     cleanup = [tmp]
     sink = cfg["sink"]
-    s3 = fakes.FakeS3(min_part_size=cfg["s3_min_write"])
+    true_limits = cfg["s3_min_write"] == "true"
+    s3 = fakes.FakeS3(min_part_size=(5 << 20) if true_limits else cfg["s3_min_write"])
     cluster = fakes.FakeCluster()
     kernel: Optional[K.Kernel] = None
     v: Optional[Violation] = None
@@ -547,7 +565,9 @@ def _execute(record: dict, rng: Optional[random.Random]) -> Outcome:
                     probes["sink_cross_device"] = 1
                 dst_arg = str(dst)
             else:
-                _patch_s3_min(cfg["s3_min_write"])
+                _patch_s3_min(None if true_limits else cfg["s3_min_write"])
+                if true_limits:
+                    probes["s3_true_5MiB_limit_runs"] = 1
                 dst_arg = "s3://bkt/dir/img.tif"
                 if sink == "s3-cluster":
                     probes["sink_s3_cluster"] = 1
